@@ -48,6 +48,13 @@ class Case:
 
     def emit(self):
         w = out.write
+        # appended after everything else (no line above moves): a call chain that leaves other functions in the first
+        # five control-stack slots; the harness runs it between two identical failing calls (the second one is served
+        # from the driver's function-lookup cache)
+        tail = "mixed zo4() { return 0; } mixed zo3() { return zo4(); } mixed zo2() { return zo3(); } mixed zo1() { return zo2(); } mixed zother() { return zo1(); }\n"
+        mp = self.path("main.c")
+        if mp in self.files and "zother" not in self.files[mp] and not self.files[mp].rstrip().endswith("\\"):
+            self.files[mp] = self.files[mp] + tail
         w("CASE %d %s\n" % (self.id, self.label))
         for p, c in self.files.items():
             b = c.encode("latin-1")
